@@ -6,8 +6,8 @@ use std::fmt::Display;
 
 const RESERVED_NAMESPACE: &str = "selium";
 // Any [a-zA-Z0-9-_] with a length between 3 and 64 chars
-static COMPONENT_REGEX: Lazy<Regex> = lazy_regex!(r"^[\w-]{3,64}$");
-static TOPIC_REGEX: Lazy<Regex> = lazy_regex!(r"^\/([\w-]{3,64})\/([\w-]{3,64})$");
+static COMPONENT_REGEX: Lazy<Regex> = lazy_regex!(r"^[a-zA-Z0-9_-]{3,64}$");
+static TOPIC_REGEX: Lazy<Regex> = lazy_regex!(r"^\/([a-zA-Z0-9_-]{3,64})\/([a-zA-Z0-9_-]{3,64})$");
 
 #[derive(Debug, Clone, Hash, Eq, PartialEq, Serialize, Deserialize)]
 pub struct TopicName {
